@@ -8,7 +8,8 @@
    from the headers.  `hall s` = all items stored in all generations; `spec_step` = the abstract finite map. *)
 From Coq Require Import ZArith List Permutation.
 From C01 Require Import HashModel HashSpec HashProofs HashInst HashInstProofs BucketFind.
-From C01 Require Gen_LimP4 Gen_Open2N2 Gen_OpenN1.
+From C01 Require IterMachine.
+From C01 Require Gen_LimP4 Gen_Open2N2 Gen_Open2N2w Gen_OpenN1.
 Import ListNotations.
 Local Open Scope Z_scope.
 
@@ -152,7 +153,8 @@ Print Assumptions C01_momo_world_refines_all_histories.
 (* ---------- "Hash table is full" is unreachable ----------
    If the probe sequence of every hash code visits every bucket within bucketCount probes and CalcCapacity(bc) <= maxCount*bc,
    then in every reachable state (Inv + mCapacity <= maxCount * bucketCount of the newest table) an insert of an absent key
-   can only throw from pvAddGrow's MOMO_CHECK(newCapacity > mCount) / the length_error bound: pvAddNogrow never reports
+   can only throw from the length_error bound of Buckets::Create (table beyond 2^maxLog buckets; since 7a001ad pvAddGrow
+   chooses the size with the same loop as Reserve, so an overloaded table can always grow): pvAddNogrow never reports
    "Hash table is full" when mCount < mCapacity, and the fresh table of pvAddGrow always accepts the item.  Buckets without
    a bound (UnlimP; `unlimited`) are never full at all. *)
 Theorem C01_never_table_full :
@@ -164,7 +166,7 @@ Theorem C01_never_table_full :
       Reach B b0 decode h cap unlimited wf0 start next maxLog Binv s ->
       step B b0 decode upd_bound h cap unlimited wf0 wfThr start next logStart calcCapacity shift maxLog s (OInsert k v bud) = (s', RExn) ->
       ~ (count s < capacity s) /\
-      (calcCapacity (2 ^ newLog B logStart shift (gens s)) <= count s \/ maxLog < newLog B logStart shift (gens s)).
+      match reserve_log calcCapacity 64 (newLog B logStart shift (gens s)) (count s + 1) with Some nl => maxLog < nl | None => True end.
 Proof. exact never_table_full. Qed.
 Print Assumptions C01_never_table_full.
 
@@ -189,8 +191,8 @@ Theorem C01_momo_never_table_full :
           (Binv_of (c_bound c)) s ->
     step_gen c h s (OInsert k v bud) = (s', RExn) ->
     ~ (count s < capacity s) /\
-    (calc_capacity (c_pol c) (c_cap c) (2 ^ newLog BS (c_logStart c) (shift_fn (c_pol c) (c_cap c)) (gens s)) <= count s \/
-     max_log < newLog BS (c_logStart c) (shift_fn (c_pol c) (c_cap c)) (gens s)).
+    match reserve_log (calc_capacity (c_pol c) (c_cap c)) 64 (newLog BS (c_logStart c) (shift_fn (c_pol c) (c_cap c)) (gens s)) (count s + 1)
+    with Some nl => max_log < nl | None => True end.
 Proof. exact momo_never_table_full. Qed.
 Print Assumptions C01_momo_never_table_full.
 
@@ -227,3 +229,53 @@ Theorem C01_openn1_find_complete :
     find_sh (map (tag h Gen_OpenN1.ptCalcShortHash) its ++ empties) its (Gen_OpenN1.ptCalcShortHash (h k)) k i = Some (bfind k its i).
 Proof. exact openn1_find_complete. Qed.
 Print Assumptions C01_openn1_find_complete.
+
+(* ---------- round 3 ---------- *)
+(* ALL histories of the pair of containers, interrupted MergeTo included: the abstract run is the relation wtrace whose rule for
+   a throwing MergeTo says: the union of the two contents is unchanged as a multiset (every element is in exactly one of the two
+   containers afterwards), both keep distinct keys; every other throwing operation changes nothing. *)
+Theorem C01_momo_world_traces_all_histories :
+  forall c (h : Z -> Z), cfg_valid c -> forall os,
+    exists m', wtrace ([], [], None) os (snd (wrun_gen c h winit_cfg os)) m' /\
+      WR BS bs0 (decode_fn (c_bound c)) h (c_cap c) (c_unlimited c) (c_wf0 c) start_fn (next_fn (c_probing c)) max_log (Binv_of (c_bound c))
+         (fst (wrun_gen c h winit_cfg os)) m'.
+Proof. exact momo_world_traces_all_histories. Qed.
+Print Assumptions C01_momo_world_traces_all_histories.
+
+(* The iterator as a machine (HashSetConstIterator::pvInc / pvMove; state = generation, bucket index, position):
+   GetBegin(); while (iter) { visit; ++iter; } visits exactly the model's traversal list, in that order -- for ANY state
+   (no invariant needed); with C01_traversal_perm: each stored item exactly once. *)
+Theorem C01_iterate_eq_traverse :
+  forall (B : Type) (s : hset B),
+    it_collect B (length (traverse B s)) s (it_begin B s) = if (count s =? 0) then [] else traverse B s.
+Proof. exact IterMachine.iterate_eq_traverse. Qed.
+Print Assumptions C01_iterate_eq_traverse.
+
+(* "Remove(iter) returns the next iterator": after it' = Remove(it) (swap-with-last in the bucket, then pvInc in the new
+   state) what remains to be visited from it' in the NEW container is exactly what remained after it in the OLD one --
+   nothing is skipped, nothing is visited twice (rest = the list it_collect produces, IterMachine.collect_rest). *)
+Theorem C01_iter_remove_returns_rest :
+  forall (B : Type) (b0 : B) (wf0 : bool) (s : hset B) gi bi p,
+    IterMachine.valid B s (Some (gi, bi, p)) ->
+    IterMachine.rest B (fst (it_remove B b0 wf0 s (Some (gi, bi, p)))) (snd (it_remove B b0 wf0 s (Some (gi, bi, p)))) =
+    IterMachine.rest B s (it_next B s (Some (gi, bi, p))).
+Proof. exact IterMachine.it_remove_rest. Qed.
+Print Assumptions C01_iter_remove_returns_rest.
+
+(* Open2N2 with 16-bit short hashes (useHashCodePartGetter = false) *)
+Theorem C01_open2n2w_find_complete :
+  forall (h : Z -> Z), (forall k, 0 <= h k < 2 ^ 64) -> forall k its empties i,
+    Forall (fun s => 32768 <= s) empties ->
+    find_sh (map (tag h Gen_Open2N2w.pvCalcShortHash) its ++ empties) its (Gen_Open2N2w.pvCalcShortHash (h k)) k i = Some (bfind k its i).
+Proof. exact open2n2w_find_complete. Qed.
+Print Assumptions C01_open2n2w_find_complete.
+
+(* the stored bytes stay in step with the items over every bucket history (AddCrt appends item + its short hash, Remove moves
+   the last item AND its byte into the hole), so the short-hash filter finds exactly what the key search finds after any history *)
+Theorem C01_bucket_find_complete_all_histories :
+  forall (h : Z -> Z) (calcSH : Z -> Z) (emptyFrom : Z),
+    (forall k, calcSH (h k) < emptyFrom) -> forall os k empties i, Forall (fun s => emptyFrom <= s) empties ->
+      let st := fold_left (bstep (tag h calcSH)) os ([], []) in
+      find_sh (fst st ++ empties) (snd st) (calcSH (h k)) k i = Some (bfind k (snd st) i).
+Proof. exact bucket_find_complete_all_histories. Qed.
+Print Assumptions C01_bucket_find_complete_all_histories.
